@@ -22,14 +22,15 @@
 EXTENDS AppMon, VfEmit
 CONSTANTS Scenarios,      \* set of scenarios: [I, T, R, conns, userAt, horizon]
           StampAlways,    \* TRUE: every ping overwrites last_ping_tm (the repaired C16 defect)
-          CloseAsError    \* TRUE: a server close frame goes through the error path (the repaired C14 defect)
+          CloseAsError,   \* TRUE: a server close frame goes through the error path (the repaired C14 defect)
+          CheckTorn       \* TRUE: check() reads last_ping_tm twice, the ping thread may run in between (the repaired C16 race)
 
 VARIABLES sc, now, pc, keepRunning, sockOpen, cid, reconnecting, netQ, netSched, wake,
           lastPing, lastPong, pingPc, pingDue, stopPing, pingN, userDone,
-          hasErrored, tornDown, closeFrame, pendingErr, mon, bad
+          hasErrored, tornDown, closeFrame, pendingErr, mon, bad, chk
 vars == <<sc, now, pc, keepRunning, sockOpen, cid, reconnecting, netQ, netSched, wake,
           lastPing, lastPong, pingPc, pingDue, stopPing, pingN, userDone,
-          hasErrored, tornDown, closeFrame, pendingErr, mon, bad>>
+          hasErrored, tornDown, closeFrame, pendingErr, mon, bad, chk>>
 
 NoFrame == [kind |-> "none"]
 Cbs == <<"open", "reconnect", "message", "data", "error", "close", "ping", "pong">>
@@ -64,7 +65,7 @@ Init ==
   /\ now = 0 /\ pc = "start" /\ keepRunning = FALSE /\ sockOpen = FALSE /\ cid = -1 /\ reconnecting = FALSE
   /\ netQ = <<>> /\ netSched = {} /\ wake = -1 /\ lastPing = 0 /\ lastPong = 0
   /\ pingPc = "off" /\ pingDue = -1 /\ stopPing = FALSE /\ pingN = 0 /\ userDone = FALSE
-  /\ hasErrored = FALSE /\ tornDown = FALSE /\ closeFrame = NoFrame /\ pendingErr = "" /\ mon = MInit /\ bad = ""
+  /\ hasErrored = FALSE /\ tornDown = FALSE /\ closeFrame = NoFrame /\ pendingErr = "" /\ mon = MInit /\ bad = "" /\ chk = FALSE
 
 UNCH(vs) == UNCHANGED vs
 
@@ -136,14 +137,26 @@ Read ==
   /\ UNCH(<<sc, now, keepRunning, sockOpen, cid, reconnecting, netSched, wake, lastPing, pingPc, pingDue, stopPing,
             pingN, userDone, hasErrored, tornDown>>)
 
-\* check(): the ping/pong timeout predicate, exactly as the code writes it
+\* check(): the ping/pong timeout predicate, exactly as the code writes it.  The code reads the ping stamp once
+\* (CheckTorn = FALSE); the earlier code read it for the expiry test and again for the pong tests, two steps with a
+\* window for the ping thread in between (CheckTorn = TRUE, kept to show that the model sees the race).
 Check ==
   /\ pc = "check"
-  /\ IF sc.T > 0 /\ lastPing # 0 /\ now - lastPing > sc.T /\ (lastPong - lastPing < 0 \/ lastPong - lastPing > sc.T)
+  /\ IF CheckTorn
+     THEN pc' = "check2" /\ chk' = (sc.T > 0 /\ lastPing # 0 /\ now - lastPing > sc.T) /\ pendingErr' = pendingErr
+     ELSE /\ chk' = chk
+          /\ IF sc.T > 0 /\ lastPing # 0 /\ now - lastPing > sc.T /\ (lastPong - lastPing < 0 \/ lastPong - lastPing > sc.T)
+             THEN pc' = "disconnect" /\ pendingErr' = "WebSocketTimeoutException"
+             ELSE pc' = "looptest" /\ pendingErr' = pendingErr
+  /\ UNCH(<<sc, now, keepRunning, sockOpen, cid, reconnecting, netQ, netSched, wake, lastPing, lastPong, pingPc, pingDue, stopPing,
+            pingN, userDone, hasErrored, tornDown, closeFrame, mon, bad>>)
+Check2 ==
+  /\ pc = "check2"
+  /\ IF chk /\ lastPing # 0 /\ (lastPong - lastPing < 0 \/ lastPong - lastPing > sc.T)
      THEN pc' = "disconnect" /\ pendingErr' = "WebSocketTimeoutException"
      ELSE pc' = "looptest" /\ pendingErr' = pendingErr
   /\ UNCH(<<sc, now, keepRunning, sockOpen, cid, reconnecting, netQ, netSched, wake, lastPing, lastPong, pingPc, pingDue, stopPing,
-            pingN, userDone, hasErrored, tornDown, closeFrame, mon, bad>>)
+            pingN, userDone, hasErrored, tornDown, closeFrame, mon, bad, chk>>)
 
 \* handleDisconnect(e, reconnecting); a failure after the application's close() is not an error of the run
 Disconnect ==
@@ -232,7 +245,7 @@ Deliver ==
             pingN, userDone, hasErrored, tornDown, closeFrame, pendingErr>>)
 
 (* ------------------------------ Clock ------------------------------------- *)
-MainCanMove == pc \in {"start", "dial", "looptest", "read", "check", "disconnect", "afterloop", "teardown"}
+MainCanMove == pc \in {"start", "dial", "looptest", "read", "check", "check2", "disconnect", "afterloop", "teardown"}
                \/ (pc = "select" /\ (netQ # <<>> \/ ~sockOpen \/ now = wake))
                \/ (pc = "rsleep" /\ now = wake)
                \/ (pc = "return" /\ pingPc \in {"off", "stopped"})
@@ -250,8 +263,9 @@ Tick ==
   /\ UNCH(<<sc, pc, keepRunning, sockOpen, cid, reconnecting, netQ, netSched, wake, lastPing, lastPong, pingPc, pingDue, stopPing,
             pingN, userDone, hasErrored, tornDown, closeFrame, pendingErr, mon, bad>>)
 
-Next == Start \/ Dial \/ LoopTest \/ SelectWake \/ Read \/ Check \/ Disconnect \/ AfterLoop \/ ReconnectWake \/ Teardown \/ Return
-        \/ PingStep \/ UserClose \/ Deliver \/ Tick
+Next == Check \/ Check2
+        \/ ((Start \/ Dial \/ LoopTest \/ SelectWake \/ Read \/ Disconnect \/ AfterLoop \/ ReconnectWake \/ Teardown \/ Return
+             \/ PingStep \/ UserClose \/ Deliver \/ Tick) /\ UNCHANGED chk)
 Spec == Init /\ [][Next]_vars /\ WF_vars(Next)
 
 (* ------------------------------ properties -------------------------------- *)
